@@ -525,6 +525,13 @@ class Gen:
                 # before the trailing expression is not generally possible; insert before last line's expr
                 raise AnchorError('body_end hints unsupported; use an anchor')
             cnt = text.count(anchor)
+            if cnt == 0 and where in ('before', 'after'):
+                # a hint attached to a loop header keeps its place when only the range of that loop was edited: fall back to `for <var> in `
+                mh = re.match(r'for (\w+(?:: \w+)?) in ', anchor)
+                if mh and text.count(mh.group(0)) == 1:
+                    log.add('RX-anchor', p, anchor, mh.group(0))
+                    anchor = mh.group(0)
+                    cnt = 1
             if cnt != 1:
                 raise AnchorError('%s: hint anchor %r occurs %d times' % (p, anchor, cnt))
             k = text.index(anchor)
